@@ -237,3 +237,40 @@ func refsOf(e *engine, id wasm.ModuleID) int       { return e.compiledRefs[id] }
 //@ func (e *engine) deleteCompiledFunctions(module *wasm.Module)
 //@   ensures[shared-entry-survives] old(refsOf(e, module.ID)) > 1 ==> hasCompiled(e, module.ID) == old(hasCompiled(e, module.ID)) && refsOf(e, module.ID) == old(refsOf(e, module.ID)) - 1
 //@   ensures[last-user-removes-it] old(refsOf(e, module.ID)) <= 1 ==> !hasCompiled(e, module.ID) && refsOf(e, module.ID) == 0
+
+// ---- C07: the interpreter's compiler emits the exit code check operation at loop headers and before
+// tail calls when close-on-context-done is on.
+//@ prop C07
+//@ func (c *compiler) emit(op unionOperation)
+//@   ensures[appended-unless-unreachable] !old(c.unreachableState.on) && !old(op.Kind == operationKindDrop && int64(op.U1) == -1) ==> len(c.result.Operations) == old(len(c.result.Operations))+1 && c.result.Operations[len(c.result.Operations)-1].Kind == old(op.Kind)
+//@   ensures[earlier-operations-kept] len(c.result.Operations) >= old(len(c.result.Operations)) && forall i int :: 0 <= i && i < old(len(c.result.Operations)) ==> c.result.Operations[i].Kind == old[operationKind](c.result.Operations[i].Kind)
+//@   modifies c.result.Operations, c.result.IROperationSourceOffsetsInWasmBinary, elems(c.result.Operations), elems(c.result.IROperationSourceOffsetsInWasmBinary)
+
+// (operand type bookkeeping of the compiler: assumed to touch only the type stack and the position)
+//@ func (c *compiler) applyToStack(opcode wasm.Opcode) (index uint32, err error)
+//@   trusted
+//@   modifies c.stack, c.stackLenInUint64, c.pc, elems(c.stack)
+//@ func (c *compiler) getFrameDropRange(frame *controlFrame, isEnd bool) inclusiveRange
+//@   trusted
+//@   modifies nothing
+
+// (lazily built function definitions of the module: assumed not to touch the compiler's state)
+//@ func (m *wasm.Module) FunctionDefinition(index wasm.Index) *wasm.FunctionDefinition
+//@   trusted
+//@   ensures r0 != nil
+//@   modifies nothing
+
+//@ case loop (c *compiler) handleInstruction() error
+//@   requires c.pc < uint64(len(c.body)) && c.body[c.pc] == wasm.OpcodeLoop && c.ensureTermination && !c.unreachableState.on && c.result.LabelCallers != nil && len(c.result.Operations) < 1<<40
+//@   ensures[exit-code-check-at-the-loop-header] r0 == nil ==> len(c.result.Operations) == old(len(c.result.Operations))+3 && c.result.Operations[len(c.result.Operations)-1].Kind == operationKindBuiltinFunctionCheckExitCode && c.result.Operations[len(c.result.Operations)-2].Kind == operationKindLabel
+//@   nosafety keep-pre
+
+//@ case return_call (c *compiler) handleInstruction() error
+//@   requires c.pc < uint64(len(c.body)) && c.body[c.pc] == wasm.OpcodeTailCallReturnCall && c.module != nil && c.ensureTermination && !c.unreachableState.on && len(c.result.Operations) < 1<<40
+//@   ensures[exit-code-check-before-the-tail-call] r0 == nil && len(c.result.Operations) >= 1 && c.result.Operations[len(c.result.Operations)-1].Kind == operationKindTailCallReturnCall ==> len(c.result.Operations) == old(len(c.result.Operations))+2 && c.result.Operations[len(c.result.Operations)-2].Kind == operationKindBuiltinFunctionCheckExitCode
+//@   nosafety keep-pre
+
+//@ case return_call_indirect (c *compiler) handleInstruction() error
+//@   requires c.pc < uint64(len(c.body)) && c.body[c.pc] == wasm.OpcodeTailCallReturnCallIndirect && c.ensureTermination && !c.unreachableState.on && len(c.result.Operations) < 1<<40
+//@   ensures[exit-code-check-before-the-tail-call] r0 == nil ==> len(c.result.Operations) == old(len(c.result.Operations))+2 && c.result.Operations[len(c.result.Operations)-2].Kind == operationKindBuiltinFunctionCheckExitCode && c.result.Operations[len(c.result.Operations)-1].Kind == operationKindTailCallReturnCallIndirect
+//@   nosafety keep-pre
